@@ -91,7 +91,8 @@ def run(c, chk):
     # the one walker: the function (the resolver itself, or a helper split off it) whose loop takes a path apart step by step
     walker = step_loop(c, sec)[0].name
     direct = sorted(set(f.name for f in c.all_funcs() for _ in f.calls('cfg_getopt_leaf')))
-    stray = [n_ for n_ in direct if n_ != walker and not any(True for _ in c.func(n_).calls(walker))]
+    stray = [n_ for n_ in direct if n_ != walker and not any(True for _ in c.func(n_).calls(walker))
+             and not (n_ in c.unknown_funcs and set(c.owners(n_)) <= ({walker} | set(c.owners(walker))))]
     if stray:
         leaf_callers = sorted(set(o for n_ in stray for o in c.owners(n_)))
         chk.fail('R11.1', 'leaf-callers:%s' % ','.join(leaf_callers), c.where(c.need('cfg_getopt_leaf')), 'the leaf lookup is called from %s, not only from the resolver' % leaf_callers)
@@ -370,7 +371,13 @@ def step_loop(c, secf):
     leafs = ('cfg_getopt_leaf',)
     for g in c.deep_funcs(secf):
         loops = _cfg.natural_loops(g)
-        cands = [h for h, body in loops.items() if any(i.op == 'call' and i.callee_name() in leafs for b in body for i in g.blocks[b].instrs)]
+        def looks_up(i):
+            n_ = i.callee_name() if i.op == 'call' else None
+            if n_ in leafs:
+                return True
+            h_ = c.func(n_) if n_ in c.unknown_funcs else None
+            return h_ is not None and h_ is not g and any(True for x in c.deep_funcs(h_) for _ in x.calls(leafs[0]))
+        cands = [h for h, body in loops.items() if any(looks_up(i) for b in body for i in g.blocks[b].instrs)]
         if cands:
             # outermost: the one whose body contains the others
             cands.sort(key=lambda h: -len(loops[h]))
